@@ -78,6 +78,11 @@ Step ==
                  \* a block whose notification fired cannot still be open when the run ends normally
                  IF e.ok /\ \E s \in Ids : sco[s].open /\ sco[s].trig
                  THEN Fail(Clause({s \in Ids : sco[s].open /\ sco[s].trig}, "C07.never_interrupted"))
+                 \* "its children are closed": what a block ended by its notification leaves behind is dead.  A run that
+                 \* later dies of a kernel error (never of the program's own exception) was brought down by a left-over
+                 ELSE IF ~e.ok /\ F(F(e, "out", [k |-> "ok"]), "k", "ok") = "exc" /\ F(F(e, "out", [k |-> "ok"]), "internal", FALSE)
+                         /\ \E s \in Ids : sco[s].exited /\ sco[s].trig
+                 THEN Fail("C07.died_after_closing_children")
                  ELSE UNCHANGED <<sco, flg, bad>>
             [] OTHER -> UNCHANGED <<sco, flg, bad>>
 Spec == Init /\ [][Step]_vars
